@@ -187,7 +187,7 @@ func init() {
 				// joined by every separator of a punctuation alphabet (and by nothing), every
 				// code with a separator in front or behind, and "name<sep>code": a list-based or
 				// substring-based lookup accepts some of them (round 4, C20-A-r4)
-				for _, sdec := range append(joinedCodes(en), glyphVariants(en)...) {
+				for _, sdec := range append(append(joinedCodes(en), glyphVariants(en)...), hashAliasCodes(en)...) {
 					if en.Has(sdec) {
 						continue
 					}
@@ -262,6 +262,19 @@ func init() {
 			}
 		}
 		firstUse(r, fe)
+		r.Phase("tables after other process histories and under other environments", func() {
+			// a v3 table asked first in a process that has only used v2 so far, and vice versa
+			var e3, e2 [][]string
+			for _, e := range fe {
+				if len(e) > 1 && e[0] == "enum" && e[1] == "3" {
+					e3 = append(e3, e)
+				} else if len(e) > 1 && e[0] == "enum" {
+					e2 = append(e2, e)
+				}
+			}
+			historyAndEnvironment(r, e3, []string{"v2-first"})
+			historyAndEnvironment(r, e2, []string{"v3-first"})
+		})
 		r.Add("evaluations", evals)
 		r.Add("distinct_nontrivial", distinct)
 		r.Sample(map[string]any{"metric": "v3 MPR", "checks": "Get(code) for X,N,L,H; Get(s) for 47,989 other strings; String/IsValid for integers -2..6; Value(MS,S,PR) for 3x2x3 contexts"})
